@@ -15,7 +15,7 @@ for d in sorted(glob.glob('/verif/seeded/*/meta.json')):
         break
     rows.append('| %s | %s | %s | %s | %s |' % (name, (m.get('title') or '')[:110].replace('|', '/'),
                                                (m.get('needs_to_manifest') or '')[:150].replace('|', '/').replace('\n', ' '),
-                                               'yes' if ev.get('confirmed') else 'NO', (', '.join(det) + (' (' + first + ')' if first else '')) or '**missed**'))
+                                               'yes' if ev.get('confirmed') else 'NO', (', '.join(det) + (' (' + first + ')' if first else '')) or ('**' + (m.get('verdict_note') or 'missed').split(':')[0] + '**')))
 print('| id | change | needs, in order to manifest | confirmed by me | caught by |')
 print('|---|---|---|---|---|')
 print('\n'.join(rows))
